@@ -1,4 +1,141 @@
 import FqModel.Proto
-/-! driver for C06 (stub — replaced by the property's own driver) -/
-open FqModel.Proto
-def main : IO Unit := run (fun _ _ => "BADOP driver-stub")
+import FqModel.Recover
+/-! driver for C06
+
+  `batch <path> <format> <f|n> <seed> <mod> <lo> <hi>` TAB `cases=<n> <obs>@<kind>*<count> …`
+  `d <path> <mut> <format> <f|n>`  TAB `<obs>`          one decode.Decode (every panic / resource case, replays)
+  `i <path> <mut> <format> <f|n>`  TAB `tree|error|panic:…|resource:…`   the interpreter path
+  `core <prim> <arg> <buf bytes> <pos bits> <f|n>` TAB `ok|err:io|err:decoder|panic:…|resource:…`
+  `skip …` TAB `resource:…`                             a job given up for time/memory (counted, not a violation)
+
+  <obs> of a decode = `tree|partial|error / n / k / i / v`: n formats in the group, k collected format
+  errors, i index of the tree's format (or -), v = the tree carries `.Err`.
+
+  verdicts
+    * property predicate (independent of the model): the observation is not `panic:…`.
+      A panic is answered `KNOWN <fmt>:<function>:<kind> …`; lib/runner.py turns every key that is not
+      listed in known_findings.json into a VIOLATION.
+    * correspondence: `decodeGroup` run on the outcome vector the observation claims (k recoverable
+      failures, then a success or nothing) must give exactly that observation (class, k, i, v);
+      `corePrim` must predict the class of a core case. Otherwise DIVERGE.
+-/
+open FqModel FqModel.Recover FqModel.Proto
+
+def failDec : Decoder := fun _ => .panic .ioError
+def okDec : Decoder := fun _ => .ok ()
+
+def renderResult : Result → String
+  | .tree i errs => s!"tree/{errs.length}/{i}/0"
+  | .treeWithErr i _ => s!"partial/1/{i}/1"
+  | .formatsErr errs => s!"error/{errs.length}/-/0"
+  | .panic _ => "panic"
+
+/-- the model's answer for a group of `n` formats of which the first `k` fail recoverably and,
+    if `hasTree`, the next one succeeds -/
+def modelShape (n k : Nat) (hasTree : Bool) : String :=
+  let g : List Decoder :=
+    if hasTree then List.replicate k failDec ++ List.replicate (n - k) okDec
+    else List.replicate n failDec
+  renderResult (decodeGroup g { bytes := [], force := false })
+
+/-- check one decode observation `cls/n/k/i/v` against the model; "" = agrees -/
+def checkObs (obs : String) : String :=
+  match obs.splitOn "/" with
+  | [cls, sn, sk, si, sv] =>
+    match sn.toNat?, sk.toNat?, sv.toNat? with
+    | some n, some k, some v =>
+      let hasTree := si != "-"
+      if hasTree && si.toNat?.isNone then "unparsable index"
+      else
+        let claimed := s!"{cls}/{k}/{si}/{v}"
+        let m := modelShape n (if hasTree && v == 1 then 1 else k) hasTree
+        if hasTree && k ≥ n && !(n == 1 && v == 1) then s!"a tree after all {n} formats failed"
+        else if m == claimed then "" else s!"{m}"
+    | _, _, _ => "unparsable numbers"
+  | _ => "not a decode observation"
+
+def isPanic (obs : String) : Bool := obs.startsWith "panic:"
+def isResource (obs : String) : Bool := obs.startsWith "resource:"
+
+def knownVerdict (obs : String) : String :=
+  let key := (obs.drop 6).toString
+  if key.isEmpty || key.contains ' ' then "BADOP panic-key" else s!"KNOWN {key} unhandled runtime fault (model: tree|error)"
+
+def decodeVerdict (obs : String) : String :=
+  if isPanic obs then knownVerdict obs
+  else if isResource obs then "OK resource"
+  else if obs.startsWith "badcase" || obs.startsWith "bad:" then s!"BADOP {obs}"
+  else match checkObs obs with
+    | "" => "OK"
+    | why => s!"DIVERGE model={why}"
+
+def batchVerdict (obs : String) : String :=
+  match words obs with
+  | c :: toks =>
+    if !c.startsWith "cases=" then "BADOP cases" else
+    match (c.drop 6).toString.toNat? with
+    | none => "BADOP cases"
+    | some total =>
+      let step (acc : Nat × String) (tok : String) : Nat × String :=
+        match tok.splitOn "*" with
+        | [ok, cs] =>
+          match cs.toNat? with
+          | none => (acc.1, "BADOP count")
+          | some cnt =>
+            let o := (ok.splitOn "@").headD ""
+            let v := decodeVerdict o
+            (acc.1 + cnt, if acc.2 == "" && v != "OK" && v != "OK resource" then v else acc.2)
+        | _ => (acc.1, "BADOP token")
+      let (sum, bad) := toks.foldl step (0, "")
+      if bad != "" then bad
+      else if sum != total then "BADOP histogram-does-not-add-up"
+      else "OK"
+  | [] => "BADOP empty"
+
+def parsePrim : String → Option Prim
+  | "ok" => some .okP | "bits" => some .bits | "ubits" => some .ubits | "u" => some .u | "fieldu" => some .u
+  | "rawlen" => some .rawlen | "tryrawlen" => some .rawlen | "seekabs" => some .seekabs | "seekrel" => some .seekrel
+  | "framed" => some .framed | "limited" => some .limited | "rangefn" => some .rangefn
+  | "byteslen" => some .byteslen | "bytesrange" => some .bytesrange | "peekbytes" => some .peekbytes
+  | "utf8" => some .utf8 | "bitbufrange" => some .bitbufrange | "alignbits" => some .alignbits
+  | "structn" => some .structn | "errorf" => some .errorf | "fatalf" => some .fatalf | "iopanic" => some .iopanic
+  | "leastbytes" => some .leastbytes | "leastbits" => some .leastbits
+  | _ => none
+
+/-- bytes a primitive allocates from its argument without the buffer bounding it -/
+def allocBytes (p : Prim) (a : Int) : Int :=
+  match p with
+  | .bits => bitsByteCount a
+  | .byteslen | .peekbytes | .bytesrange => a
+  | _ => 0
+
+def coreVerdict (sp sa sb spos sf obs : String) : String :=
+  match parsePrim sp, sa.toInt?, sb.toNat?, spos.toNat? with
+  | some p, some a, some nb, some pos =>
+    if sf != "f" && sf != "n" then "BADOP force" else
+    let s : St := { len := Int.ofNat nb * 8, pos := Int.ofNat pos, force := sf == "f" }
+    -- the harness decoder is the only format of its group: the class of decodeGroup is the class of the primitive
+    let m := (corePrim p s a).cls
+    let kindOf (o : String) : String := "panic:" ++ (o.splitOn ":").getLastD ""
+    let agrees := if isPanic obs then kindOf obs == m else obs == m
+    let div := if agrees then "" else s!" ;DIVERGE model={m}"
+    if isPanic obs then knownVerdict obs ++ div
+    else if isResource obs then
+      -- an allocation of more than 1 GiB that the model lets through may exhaust memory instead
+      if allocBytes p a > 1073741824 && !(m.startsWith "panic:") then "OK resource" else s!"DIVERGE model={m}"
+    else if agrees then "OK" else s!"DIVERGE model={m}"
+  | _, _, _, _ => "BADOP parse"
+
+def stepC06 (op obs : String) : String :=
+  match words op with
+  | "batch" :: _ => batchVerdict obs
+  | ["d", _, _, _, _] => decodeVerdict obs
+  | ["i", _, _, _, _] =>
+    if isPanic obs then knownVerdict obs
+    else if isResource obs || obs == "tree" || obs == "error" then "OK"
+    else s!"BADOP {obs}"
+  | ["core", p, a, b, pos, f] => coreVerdict p a b pos f obs
+  | "skip" :: _ => if isResource obs then "OK resource" else "BADOP skip"
+  | _ => "BADOP op"
+
+def main : IO Unit := run stepC06
